@@ -1847,6 +1847,10 @@ pub fn stack_probe(p: &Params, only: Option<&str>) -> Outcome {
     let seed = p.seed;
     let prop = p.prop.clone();
     let only = only.map(|s| s.to_string());
+    // the case being run and when it started: the main thread watches it (a library change that makes
+    // scanning spin forever would otherwise keep this stage alive until the driver's 30-minute limit)
+    let current: std::sync::Arc<std::sync::Mutex<(String, std::time::Instant)>> = std::sync::Arc::new(std::sync::Mutex::new((String::new(), std::time::Instant::now())));
+    let cur2 = current.clone();
     // NOTE: no stack_size() here on purpose: the platform default for spawned threads
     let h = std::thread::Builder::new().name("default-stack".into()).spawn(move || {
         let mut ctx = Ctx::new(0);
@@ -1855,6 +1859,9 @@ pub fn stack_probe(p: &Params, only: Option<&str>) -> Outcome {
                 if o != name {
                     continue;
                 }
+            }
+            if let Ok(mut g) = cur2.lock() {
+                *g = (name.to_string(), std::time::Instant::now());
             }
             eprintln!("CASE {}", name);
             let _ = std::io::stderr().flush();
@@ -1916,6 +1923,21 @@ pub fn stack_probe(p: &Params, only: Option<&str>) -> Outcome {
         }
         ctx
     });
+    // wall-clock suspicion only; the driver decides on CPU time by re-executing the one case
+    let limit_s: u64 = std::env::var("VERIF_STACK_CASE_LIMIT_S").ok().and_then(|v| v.parse().ok()).unwrap_or(240);
+    if let Ok(hh) = &h {
+        while !hh.is_finished() {
+            std::thread::sleep(std::time::Duration::from_millis(200));
+            let (name, t0) = current.lock().map(|g| g.clone()).unwrap_or((String::new(), std::time::Instant::now()));
+            if !name.is_empty() && t0.elapsed().as_secs() >= limit_s && !hh.is_finished() {
+                let root = std::env::var("VERIF_ROOT").unwrap_or_else(|_| ".".into());
+                let path = format!("{}/target/hang-suspect-{}.json", root, std::process::id());
+                let _ = std::fs::write(&path, serde_json::to_string(&json!({"kind":"stack_probe","case":name,"seed":seed})).unwrap_or_default());
+                eprintln!("HANG-SUSPECT {}", path);
+                std::process::exit(3);
+            }
+        }
+    }
     let ctx = match h.map(|h| h.join()) {
         Ok(Ok(c)) => c,
         _ => {
